@@ -64,7 +64,10 @@ struct Exec {
     void check_zombie_answers(Inst *x);
     bool timers_active();
     // a descriptor source leaves its module: an auto-close descriptor now belongs to (and is closed by) the library
-    void release_fd_src(const FdSrc &f) { if (f.autoclose && !f.dup) harness_fd_open[f.idx] = false; }
+    void release_fd_src(const FdSrc &f) { if (f.autoclose && !f.dup && !autoclose_closed[f.idx]) autoclose_pending[f.idx] = true; }
+    int refused_fd_reg = -1;
+    bool harness_closing = false; bool autoclose_pending[8], autoclose_closed[8]; unsigned long harness_ino[8];
+    void on_lib_close(int fd, int r, int e);
     // is a poison pill the first required pending entry of y?
     bool pill_is_next(Inst *y) { for (auto &m : y->mailbox) { if (m.pill) return true; if (!m.optional) return false; } return false; }
     bool maybe_fired(Inst *y, const Sub &s) { if (!s.oneshot) return false; if (s.maybe_gone) return true; for (auto &m : y->mailbox) for (auto &v : m.via) if (v.sub_topic == s.topic) return true; return false; }
